@@ -7,7 +7,7 @@
 From Coq Require Import ZArith Bool List.
 Import ListNotations.
 From Verif Require Import Model.Val Gen.Src_Clockwork Model.Clockwork Proofs.ClockworkP Proofs.ClockworkP2 Proofs.ClockworkP3
-  Proofs.ClockworkP4 Proofs.ClockworkP5 Proofs.ClockworkP6 Proofs.ClockworkP7 Proofs.ClockworkP8.
+  Proofs.ClockworkP4 Proofs.ClockworkP5 Proofs.ClockworkP6 Proofs.ClockworkP7 Proofs.ClockworkP8 Proofs.ClockworkP9.
 Open Scope Z_scope.
 
 Theorem C10_cw_one_decision : forall wd ls inv st st' d, world_wf wd -> Inv_st wd st -> cw_schedule wd ls inv st = Ok (st', d) ->
@@ -42,18 +42,27 @@ Proof.
   eapply Forall_impl; [|exact B6]. cbn. intros t [E _]. assumption.
 Qed.
 Print Assumptions C10_cw_placements_named.
-(* "returns normally", the part that is proved: the inference loops terminate.  PARTIAL: that no exception (Err 2 refused
-   allocation, 3 short queue, 5/6/7) is raised is not proved here; the S-cw stream observes none on generated inputs
-   except the refused allocation of a strategy asking the same unit through an `any` and a specific id (C04's domain). *)
-Theorem C10_cw_returns_partial : forall wd ls inv st, world_wf wd -> bs_pos wd -> Inv_st wd st -> cw_schedule wd ls inv st <> Err 99.
+(* "returns normally": schedule() returns a decision (no exception, no divergence) when every batch size is >= 1, every
+   offered request has a known profile with at least one strategy, and no strategy asks for the same resource NAME twice
+   (res_ok).  The last hypothesis is needed: without it the statement is refuted (finding F-cw1). *)
+Theorem C10_cw_returns : forall wd ls inv st, world_wf wd -> bs_pos wd -> res_ok wd -> Inv_st wd st -> offered_known wd inv ->
+  exists st' d, cw_schedule wd ls inv st = Ok (st', d).
+Proof. exact cw_schedule_returns. Qed.
+Print Assumptions C10_cw_returns.
+Theorem C10_cw_returns_run : forall wd ls started invs, world_wf wd -> bs_pos wd -> res_ok wd -> NoDup started -> Forall (offered_known wd) invs ->
+  Forall (fun r => exists d, r = Ok d) (cw_run wd ls invs (cw_start wd started)) /\
+  length (cw_run wd ls invs (cw_start wd started)) = length invs.
+Proof. intros wd ls started invs Hw Hp Hr Hd Ho. apply run_returns; try assumption. apply cw_start_inv; assumption. Qed.
+Print Assumptions C10_cw_returns_run.
+(* termination alone needs no hypothesis on resources *)
+Theorem C10_cw_terminates : forall wd ls inv st, world_wf wd -> bs_pos wd -> Inv_st wd st -> cw_schedule wd ls inv st <> Err 99.
 Proof. exact cw_schedule_terminates. Qed.
-Print Assumptions C10_cw_returns_partial.
-(* ... and it cannot be proved: the statement "schedule() returns normally" is refuted by a witness that satisfies every
-   hypothesis (finding F-cw1, reproduced on the real scheduler by the check) *)
+Print Assumptions C10_cw_terminates.
+(* refuted without res_ok: the witness satisfies every other hypothesis (reproduced on the real scheduler by the check) *)
 Theorem C10_cw_returns_refuted :
   world_wf rf_wd /\ bs_pos rf_wd /\ Inv_st rf_wd (cw_start rf_wd [1]) /\ cw_schedule rf_wd false rf_inv (cw_start rf_wd [1]) = Err 2.
 Proof. exact returns_normally_refuted. Qed.
 Print Assumptions C10_cw_returns_refuted.
-Theorem C10_cw_example : world_wf ex_wd /\ bs_pos ex_wd /\ map t_id (run_placed (cw_run ex_wd false ex_invs (cw_start ex_wd [1]))) = [1; 2; 6; 4].
-Proof. exact (conj ex_world_wf (conj ex_bs_pos ex_placed)). Qed.
+Theorem C10_cw_example : world_wf ex_wd /\ bs_pos ex_wd /\ res_ok ex_wd /\ map t_id (run_placed (cw_run ex_wd false ex_invs (cw_start ex_wd [1]))) = [1; 2; 6; 4].
+Proof. exact (conj ex_world_wf (conj ex_bs_pos (conj ex_res_ok ex_placed))). Qed.
 Print Assumptions C10_cw_example.
